@@ -46,6 +46,18 @@ theorem readHeader_frame (f : WFrame) (hv : f.Valid) (rest : Bytes) :
 
 /-! ## `dispatch` -/
 
+theorem Beh.took_le (b : Beh) (n avail : Nat) : b.took n avail ≤ avail := by
+  cases b <;> simp only [Beh.took]
+  · omega
+  · omega
+  · split <;> omega
+
+theorem Beh.allocs_le (b : Beh) (st : Bool) (n : Nat) : ∀ a ∈ b.allocs st n, a ≤ MaxBuf := by
+  cases b <;> simp only [Beh.allocs, List.not_mem_nil, false_imp_iff, implies_true]
+  split
+  · rename_i h; simp only [Bool.and_eq_true, decide_eq_true_eq] at h; intro a ha; simp at ha; omega
+  · simp
+
 theorem dispatch_crashed (cfg : Cfg) (i : Nat) (h : Header) (aw : Bool) (beh : Beh) (s : Bytes) :
     (dispatch cfg i h aw beh s).crashed = false := by
   cases aw <;> cases hhp : handlerParty cfg h.typ <;>
@@ -60,9 +72,14 @@ theorem dispatch_rest_le (cfg : Cfg) (i : Nat) (h : Header) (aw : Bool) (beh : B
 
 theorem dispatch_allocs (cfg : Cfg) (i : Nat) (h : Header) (aw : Bool) (beh : Beh) (s : Bytes) :
     ∀ a ∈ (dispatch cfg i h aw beh s).allocs, a ≤ MaxBuf := by
+  have hb := Beh.allocs_le beh
   cases aw <;> cases hhp : handlerParty cfg h.typ <;>
   by_cases c1 : h.payloadLen ≤ MaxBuf <;> by_cases c2 : s.length < h.payloadLen <;>
   simp [dispatch, hhp, c1, c2]
+  all_goals first
+    | exact hb _ _
+    | (refine ⟨by omega, ?_⟩; exact hb _ _)
+    | skip
 
 theorem handlerParty_ne_caller (cfg : Cfg) (t : Nat) (p : Party) (h : handlerParty cfg t = some p) : p ≠ .caller := by
   unfold handlerParty at h
@@ -90,10 +107,10 @@ theorem dispatch_callerOK (cfg : Cfg) (i : Nat) (h : Header) (aw : Bool) (beh : 
     | (refine ⟨?_, fun hp => absurd hp (handlerParty_ne_caller _ _ _ hhp)⟩; omega)
     | skip
 
-theorem drop_drop_min (p r : Bytes) (w : Nat) :
-    ((p ++ r).drop (min w p.length)).drop (p.length - min w p.length) = r := by
+theorem drop_drop_le (p r : Bytes) (k : Nat) (hk : k ≤ p.length) :
+    ((p ++ r).drop k).drop (p.length - k) = r := by
   rw [List.drop_drop]
-  have : min w p.length + (p.length - min w p.length) = p.length := by omega
+  have : k + (p.length - k) = p.length := by omega
   rw [this, List.drop_left]
 
 /-- a complete well-formed frame is consumed exactly, whatever the handler does, and every entitled party gets it -/
@@ -101,14 +118,14 @@ theorem dispatch_frame (cfg : Cfg) (i : Nat) (f : WFrame) (aw : Bool) (beh : Beh
     dispatch cfg i f.hdr aw beh (f.payload ++ rest) =
       { deliveries := expectedDeliveries cfg i f aw beh,
         unhandled := !aw && (handlerParty cfg f.typ).isNone,
-        allocs := if aw && decide (f.payload.length ≤ MaxBuf) then [f.payload.length] else [],
+        allocs := frameAllocs cfg f aw beh,
         rest := rest, failed := false, crashed := false } := by
-  have hd := drop_drop_min f.payload rest beh.want
+  have hd := drop_drop_le f.payload rest _ (Beh.took_le beh f.payload.length f.payload.length)
   have hlt : ¬ (f.payload.length + rest.length < f.payload.length) := by omega
   have hb : (HRes.returned == HRes.panicked) = false := by decide
   cases aw <;> cases hhp : handlerParty cfg f.typ <;>
   by_cases c1 : f.payload.length ≤ MaxBuf <;>
-  simp [dispatch, expectedDeliveries, WFrame.hdr, hhp, c1, guarded, hd, hlt, hb, List.take_left', List.drop_left']
+  simp [dispatch, expectedDeliveries, frameAllocs, WFrame.hdr, hhp, c1, guarded, hd, hlt, hb, List.take_left', List.drop_left']
 
 /-! ## the loop -/
 
